@@ -71,6 +71,37 @@ extern "C" void h_sharedvec() {
   VF_END();
 }
 
+// Two-step histories from richer states: a handle that was emptied WITHOUT
+// releasing its storage (clear(false) / pop_back to empty) is shared, then both
+// handles are mutated in turn through the MakeUnique discipline.  After every
+// step the other handle observes exactly what it observed before.
+static void step(SharedVec<int>& x, int v) {
+  unsigned op = vf_nondet_u32() % 3;
+  x.MakeUnique();
+  if (op == 0) x.push_back(v);
+  else if (op == 1) x.resize(vf_range(0, VF_N + 1), v);
+  else if (x.size() > 0) x[0] = v;
+}
+extern "C" void h_sharedvec_two_steps() {
+  SharedVec<int> a;
+  fillsym(a);
+  unsigned pre = vf_nondet_u32() % 3;
+  if (pre == 1) a.clear(false);                 // empty, storage kept
+  else if (pre == 2 && a.size() > 0) a.pop_back();
+  SharedVec<int> b;
+  b = a;  // share
+  Snap sb = snap(b);
+  step(a, vf_int());
+  same(sb, b);
+  Snap sa = snap(a);
+  step(b, vf_int());
+  same(sa, a);
+  Snap sb2 = snap(b);
+  step(a, vf_int());
+  same(sb2, b);
+  VF_END();
+}
+
 // Halfedges = three SharedVecs behind one interface
 extern "C" void h_halfedges() {
   Halfedges h;
